@@ -160,6 +160,43 @@ def drive(rec):
                     pos_same = bool(np.max(np.abs(d_ - np.round(d_))) < 1e-9)
                 if not (ops_same and num_same and pos_same):
                     raise ValueError("LoadedDiffersFromFile")
+            if (rec["number"] + len(rec["asym"]) + n) % 3 == 0:
+                # side check, the crystal itself is kept: a POSCAR as other programs write it (composed here from the crystal's unit cell): the species line names an
+                # element again whenever the atom list comes back to it (C O C H O with counts 2 2 1 3 1), Cartesian or direct
+                import numpy as np
+                uc = cr.unit_cell_atoms()
+                els = [int(z) for z in uc["element"]]
+                frac = np.asarray(uc["frac_pos"], dtype=float)
+                order = list(range(len(els)))
+                import random as _random
+                prng = _random.Random(len(els) * 31 + rec["number"])
+                prng.shuffle(order)
+                runs = []
+                for i_ in order:
+                    if runs and runs[-1][0] == els[i_] and prng.random() < 0.6:
+                        runs[-1][1].append(i_)
+                    else:
+                        runs.append([els[i_], [i_]])
+                from chmpy.core.element import Element as _El
+                D = np.asarray(cr.unit_cell.direct, dtype=float)
+                cart = prng.random() < 0.4
+                L = ["composed", "1.0"] + ["%.14f %.14f %.14f" % tuple(row) for row in D]
+                L += [" ".join(_El.from_atomic_number(z_).symbol for z_, _ in runs), " ".join(str(len(ix)) for _, ix in runs),
+                      "Cartesian" if cart else "Direct"]
+                listed = [i_ for _, ix in runs for i_ in ix]
+                for i_ in listed:
+                    v_ = frac[i_] @ D if cart else frac[i_]
+                    L.append("%.14f %.14f %.14f" % tuple(v_))
+                crp = Crystal.from_vasp_string("\n".join(L) + "\n")
+                got_z = [int(z_) for z_ in crp.asymmetric_unit.atomic_numbers]
+                gp = np.asarray(crp.asymmetric_unit.positions, dtype=float)
+                ok_ = (got_z == [els[i_] for i_ in listed] and gp.shape == (len(listed), 3)
+                       and int(crp.space_group.international_tables_number) == 1 and len(crp.space_group.symmetry_operations) == 1)
+                if ok_:
+                    d_ = gp - frac[listed]
+                    ok_ = bool(np.max(np.abs(d_ - np.round(d_))) < 1e-7) and bool(np.max(np.abs(np.asarray(crp.unit_cell.direct) - D)) < 1e-9)
+                if not ok_:
+                    raise ValueError("LoadedDiffersFromFile")
         except Exception as e:      # the first leg of the chain is itself a save + load: its failure is an observation
             t["write_exc"] = "provenance-" + prov + ":" + type(e).__name__
             return t
